@@ -76,7 +76,11 @@ fn schema_json(s: &Schema) -> Value {
 }
 
 fn read_event(via: &str, proj: &[usize], schema: Option<Value>, out: Vec<Value>, err: String) -> Value {
-    json!({"op": "read", "via": via, "proj": proj, "has_schema": schema.is_some(),
+    read_event_cm(via, proj, schema, out, err, "[]".into())
+}
+
+fn read_event_cm(via: &str, proj: &[usize], schema: Option<Value>, out: Vec<Value>, err: String, cmeta: String) -> Value {
+    json!({"op": "read", "via": via, "proj": proj, "has_schema": schema.is_some(), "cmeta": cmeta,
            "schema": schema.unwrap_or_else(|| json!({"meta": "", "fields": []})), "out": out, "err": err})
 }
 
@@ -116,8 +120,10 @@ pub fn read_file(bytes: &[u8], proj: &[usize]) -> Value {
     match guarded(|| FileReader::try_new(Cursor::new(bytes.to_vec()), p)) {
         Ok(Ok(r)) => {
             let s = schema_json(&r.schema());
+            let mut cm: Vec<(String, String)> = r.custom_metadata().iter().map(|(k, v)| (k.clone(), v.clone())).collect();
+            cm.sort();
             let (out, err) = collect(r);
-            read_event("FileReader", proj, Some(s), out, err)
+            read_event_cm("FileReader", proj, Some(s), out, err, format!("{cm:?}"))
         }
         Ok(Err(e)) => read_event("FileReader", proj, None, vec![], format!("err:{}", variant(&e))),
         Err(_) => read_event("FileReader", proj, None, vec![], "panic".into()),
@@ -200,7 +206,7 @@ pub fn run(rng: &mut Rng, ep: &Episode, kind: &str, o: &Opts, epno: usize) -> Ou
                 Ok(Err(e)) => format!("err:{}", variant(&e)),
                 _ => "panic".to_string(),
             };
-            events.push(json!({"op": "new", "ep": epno, "name": ep.name, "w": kind, "hand": o.hand(), "align": o.align, "ver": o.ver, "legacy": o.legacy, "comp": o.comp, "ree": schema_has_ree(&ep.schema),
+            events.push(json!({"op": "new", "ep": epno, "name": ep.name, "w": kind, "hand": o.hand(), "align": o.align, "ver": o.ver, "legacy": o.legacy, "comp": o.comp, "ree": schema_has_ree(&ep.schema), "dunion": schema_has_dense_union(&ep.schema), "cmeta": "[]",
                                "ctor": what, "nd": 0, "top": [], "schema": schema_json(&ep.schema), "msgs": [], "start": 0}));
             return Outcome { events, skipped: false, refused: 0 };
         }
@@ -214,7 +220,7 @@ pub fn run(rng: &mut Rng, ep: &Episode, kind: &str, o: &Opts, epno: usize) -> Ou
     let start = if kind == "file" { (6 + o.align - 1) / o.align * o.align } else { 0 };
     let mut pos = parser.stream(w.bytes(), start.min(w.bytes().len()), &mut msgs);
     let magic_ok = kind != "file" || w.bytes().starts_with(b"ARROW1");
-    events.push(json!({"op": "new", "ep": epno, "name": ep.name, "w": kind, "hand": o.hand(), "align": o.align, "ver": o.ver, "legacy": o.legacy, "comp": o.comp, "ree": schema_has_ree(&ep.schema),
+    events.push(json!({"op": "new", "ep": epno, "name": ep.name, "w": kind, "hand": o.hand(), "align": o.align, "ver": o.ver, "legacy": o.legacy, "comp": o.comp, "ree": schema_has_ree(&ep.schema), "dunion": schema_has_dense_union(&ep.schema), "cmeta": "[]",
                        "ctor": if magic_ok { "ok" } else { "bad-magic" }, "nd": nd, "top": tops, "schema": schema_json(&ep.schema), "msgs": msgs, "start": start}));
     let mut ids = ObjIds::default();
     let mut refused = 0;
@@ -230,7 +236,16 @@ pub fn run(rng: &mut Rng, ep: &Episode, kind: &str, o: &Opts, epno: usize) -> Ou
         }
         let mut msgs = vec![];
         pos = parser.stream(w.bytes(), pos, &mut msgs);
-        events.push(json!({"op": "write", "i": i + 1, "evo": ep.evo[i], "dicts": dicts, "res": res, "n": b.num_rows(), "cols": cols_json(b), "msgs": msgs}));
+        events.push(json!({"op": "write", "i": i + 1, "evo": ep.evo[i], "dicts": dicts, "res": res, "n": b.num_rows(), "ree0": has_empty_ree_slice(b), "cols": cols_json(b), "msgs": msgs}));
+    }
+    // user metadata of an IPC file (footer)
+    let mut cmeta: Vec<(String, String)> = vec![];
+    if let W::File(fw) = &mut w {
+        for i in 0..rng.below(3) {
+            let (k, v) = (format!("user{i}"), ["", "v", "é \u{1F600}"][rng.below(3)].to_string());
+            fw.write_metadata(k.clone(), v.clone());
+            cmeta.push((k, v));
+        }
     }
     let r = guarded(|| w.finish());
     let (res, _) = outcome_str(&r);
@@ -238,7 +253,7 @@ pub fn run(rng: &mut Rng, ep: &Episode, kind: &str, o: &Opts, epno: usize) -> Ou
     pos = parser.stream(w.bytes(), pos, &mut msgs);
     let bytes = w.bytes().to_vec();
     let (fd, fr, fstart) = if kind == "file" { footer_blocks(&bytes).unwrap_or((vec![], vec![], 0)) } else { (vec![], vec![], pos) };
-    events.push(json!({"op": "finish", "res": res, "msgs": msgs, "fdicts": fd, "fbatches": fr, "end": pos, "footer": fstart, "len": bytes.len()}));
+    events.push(json!({"op": "finish", "res": res, "msgs": msgs, "fdicts": fd, "fbatches": fr, "end": pos, "footer": fstart, "len": bytes.len(), "cmeta": format!("{cmeta:?}")}));
     // read back
     let ncols = ep.schema.fields().len();
     let mut projs: Vec<Vec<usize>> = vec![];
